@@ -23,15 +23,22 @@ CHECK_SPEC = 'check_spec'
 SHARD = 40
 RULE = ('store cases: a forest of real pulse templates of all 14 classes (random shapes, identifiers on random subsets, '
         'the same named object shared by several parents / roots, measurements, constraints, parameter expressions, '
-        'int and str channel ids, a small stream of identifier clashes between distinct objects), a random history of '
+        'int and str channel ids, identifier clashes between distinct objects, mappings that rebind a name to an expression '
+        'of itself / swap two parameters, measurement names or channels, a table parameter called t), a random history of '
         'pulse_storage[id] = template over 1-2 PulseStorage instances on one backend (dict / directory / zip); '
         'observation = outcome of every store, all backend documents (parsed, key order ignored, expression strings '
-        'replaced by a semantic fingerprint), and for every stored root what a FRESH PulseStorage loads: ==, interface, '
-        'duration, rendered program + measurement windows for 2 parameter assignments, identity sharing. '
-        'doc cases: valid documents with optional keys dropped / defaults spelled differently, loaded and re-stored. '
-        'pinned cases: documents written by the pinned code (corpus) must load to the template recorded then. '
-        'Per root also parameter_names / measurement_names / defined_channels against the interface model. '
-        'Non-trivial = at least one named sub-template below a root, or a doc case that changes the document.')
+        'replaced by a semantic fingerprint), and for every stored root what a FRESH PulseStorage loads: ==, interface '
+        '(parameter/measurement names, channels, integral, initial/final values incl. WHICH accesses raise), duration, '
+        'rendered program + measurement windows for 2 parameter assignments, identity sharing incl. repeated queries on '
+        'the same storage; storing must not change the stored objects. '
+        'empties: every optional constructor argument of every class declared with each empty value ([], {}, set(), None, 0, '
+        '0.0, False), AbstractPT: cross product not declared / declared empty / declared non-empty; as a root and as a named '
+        'child. hist cases: histories on ONE PulseStorage of store / overwrite (same object, other object) / delete / '
+        're-store / link_to(serialize_linked) / unlink between stores; the model gets the state of the object at every '
+        'operation. doc cases: valid documents with optional keys dropped / defaults spelled differently, loaded and '
+        're-stored. pinned cases: documents written by the pinned code (corpus) must load to the template recorded then. '
+        'Non-trivial = at least one named sub-template below a root, a doc case that changes the document, or a history '
+        'with at least two operations one of which succeeds.')
 TRUSTED = [
     'Coq 8.16.1 kernel + vm_compute',
     'text level is an oracle: json.dumps/json.loads, sympy printing/parsing of expression strings, repr(float) round trip '
@@ -886,6 +893,59 @@ def classify(case, obs):
     return None
 
 
+def _snap_children(d):
+    kids = list(d.get('subs', []))
+    for k in ('body', 'tmpl', 'inner', 'lhs', 'rhs'):
+        if isinstance(d.get(k), dict) and 'cls' in d[k]:
+            kids.append(d[k])
+    return kids
+
+
+def _hist_must_load(obs):
+    """Python reading of the history clause of check_spec: the root indices whose tree, as it is at the end, is what was
+    last written under all of its keys (key-level walk of the storage protocol on one PulseStorage)"""
+    K = {}
+
+    def written(c, K0, out):
+        for k in _snap_children(c):
+            if k['id'] is not None:
+                if k['id'] in K0:
+                    continue
+                out.append(k)
+            written(k, K0, out)
+    for (kind, key, snap), r in zip(obs['mops'], obs['res']):
+        if r != 'ok':
+            continue
+        if kind == 'del':
+            K.pop(key, None)
+        elif kind == 'over' or key not in K:
+            out = []
+            written(snap, set(K), out)
+            K[key] = snap
+            for n in out:
+                K[n['id']] = n
+
+    def named(d, out):
+        for k in _snap_children(d):
+            if k['id'] is not None:
+                out.append(k)
+            named(k, out)
+        return out
+    must = []
+    for k, (key, snap, cmp) in enumerate(obs['finals']):
+        if cmp and K.get(key) == snap and all(K.get(n['id']) == n for n in named(snap, [])):
+            must.append(k)
+    return must
+
+
+def _bad_hist(obs):
+    if 'crash' in obs or 'hang' in obs:
+        return True
+    loads = dict((k, b) for k, b in obs['loads'])
+    return any(not (k in loads and all(loads[k].get(f) for f in ('ok', 'eq', 'iface', 'dur', 'prog', 'share')))
+               for k in _hist_must_load(obs))
+
+
 def _bad_loads(obs):
     """Python-side reading of the main clause of check_spec: a stored root that does not load back as the same pulse"""
     if 'crash' in obs or 'hang' in obs:
@@ -1029,30 +1089,56 @@ def search_failing(ctx, broken):
                 case, obs = shrink(case, obs, ctx)
                 return case, obs, 'a stored root does not load back as the same pulse: %r' % (
                     [b2 for _, b2 in obs['loads'] if not all(b2.get(k) for k in ('ok', 'eq', 'iface', 'dur', 'prog', 'share'))][:1],)
+    # "declared as empty" family and histories (overwrite / delete / link_to)
+    for case in G.empties_cases('quick'):
+        obs = run_impl(case)
+        if classify(case, obs) is None and _bad_loads(obs):
+            return case, obs, 'a template with an optional argument declared as empty (%s) does not load back as the same pulse' % case.get('label')
+    hist = list(G.fixed_hist_cases('quick'))
+    tries = 0
+    while len(hist) < 80 and tries < 500:
+        tries += 1
+        try:
+            hist.append(G.gen_hist_case(rng, len(hist), 'quick'))
+        except Exception:   # noqa
+            continue
+    for case in hist:
+        obs = run_impl(case)
+        if classify(case, obs) is None and _bad_hist(obs):
+            return case, obs, 'after the history %r a root whose tree is what was last written does not load back as the same pulse' % (case['hops'],)
     return None
 
 
 MANIFEST = {
     'level_text': 'Proof over a Coq model of get_serialization_data / constructor argument handling of all 14 template '
-                  'classes and of the PulseStorage store/load protocol (json documents as trees, unbounded nesting): decoder '
-                  'inverts encoder for every class (C10_roundtrip_node); one store from any storage state over any backend '
-                  'puts exactly the documents of all named nodes into the backend and touches nothing else '
-                  '(C10_store_step); store then load through a fresh storage returns an equal template, also at the end of '
-                  'any history of stores through two storage instances on a pre-existing backend (C10_storage, '
-                  'C10_storage_history); object identities are allocated in the loader model and one identifier is one '
-                  'object in everything a storage has loaded (C10_sharing, C10_sharing_general); parameter names, '
-                  'measurement names and defined channels are model functions of all classes and equal for templates equal '
-                  'up to identity (C10_interface_erase, C10_storage_interface); stored documents never embed a named '
-                  'template (C10_documents); two refutation theorems for the known findings. Tied to /repo by an exact '
-                  'correspondence check on real template forests over the dict, directory and zip backends (documents, '
-                  'store outcomes, loads, interface sets) and by a corpus of pinned documents that must keep loading.',
+                  'classes and of the PulseStorage store / overwrite / delete / load protocol (json documents as trees, '
+                  'unbounded nesting): decoder inverts encoder for every class (C10_roundtrip_node); one store from any '
+                  'storage state over any backend puts exactly the documents of all named nodes into the backend and touches '
+                  'nothing else (C10_store_step); store then load through a fresh storage returns an equal template, also at '
+                  'the end of any history of stores through two storage instances on a pre-existing backend (C10_storage, '
+                  'C10_storage_history); round 3: histories with explicit overwrite and deletion (C10_history_ops: an '
+                  'operation that writes P, with P\'s still-cached descendants complete, and no later deletion of an '
+                  'identifier of P => P is in the backend at the end and loads back equal; deletions before the write are '
+                  'repaired by it, C10_overwrite_restores), with kernel-evaluated witnesses that both guards are needed; '
+                  'object identities are allocated in the loader model and one identifier is one object in everything a '
+                  'storage has loaded (C10_sharing, C10_sharing_general); parameter names, measurement names and defined '
+                  'channels are model functions of all classes and equal for templates equal up to identity '
+                  '(C10_interface_erase, C10_storage_interface); stored documents never embed a named template '
+                  '(C10_documents); refutation theorems for the known findings. Tied to /repo by an exact correspondence '
+                  'check on real template forests and operation histories over the dict, directory and zip backends '
+                  '(documents, outcomes, loads, interface sets) and by a corpus of pinned documents that must keep loading.',
     'level_note': 'Partial: (1) text level (json.dumps/loads, sympy printing/parsing incl. the free-symbol table used by '
                   'the interface model, float repr) is an oracle; (2) equal duration and equal behaviour (sampled program, '
-                  'windows) of loaded vs original are observed for 2 parameter assignments, not derived from a template '
-                  'semantics; (3) the history theorem assumes every stored tree free of identifier clashes. Guards: string '
-                  'dict keys (finding int_channel_key), one identifier per object (finding '
+                  'windows, integral, initial/final values) of loaded vs original are observed for 2 parameter assignments, '
+                  'not derived from a template semantics; (3) the history theorems assume no identifier clash and no '
+                  'mutation (link_to) in the history; link_to histories and histories with delete through a second '
+                  'PulseStorage are covered by the correspondence check only / not at all (a failed store that loaded a '
+                  'child from the backend leaves it in the temporary storage: not modelled, unobservable on one storage); '
+                  '(4) a linked placeholder below a parent is not modelled (storage key differs from the document\'s '
+                  'identifier). Guards: string dict keys (finding int_channel_key), one identifier per object (finding '
                   'dup_identifier_in_transaction).',
-    'technique': 'Coq proof (structural induction on nested template trees, transaction invariant for store, cache-closure '
-                 'invariant for load) + correspondence check + pinned-document corpus',
+    'technique': 'Coq proof (structural induction on nested template trees, transaction invariant for store, backend-agreement '
+                 'invariant for histories with overwrite/delete, cache-closure invariant for load) + correspondence check '
+                 '(model-independent key-level reading of the protocol as specification) + pinned-document corpus',
     'design_ref': 'DESIGN.md §5 C10',
 }
